@@ -15,6 +15,7 @@ package main
 import (
 	"fmt"
 	"math/big"
+	"os"
 	"strings"
 
 	"go.dedis.ch/kyber/v4"
@@ -501,6 +502,7 @@ func (t *sgRun) settle() {
 	for i, p := range t.proofs {
 		lines[i] = p.line
 	}
+	sgDump("prove", lines)
 	outs := c.Model(lines)
 	c.Program(len(lines))
 	for i, p := range t.proofs {
@@ -561,6 +563,7 @@ func (t *sgRun) settle() {
 			vl = append(vl, fmt.Sprintf("sigma verify %s %s %s %s %s", kc.HexN(p.env.q), v.tree.model(), hexList(v.pval), kc.HexB(mock), kc.HexN(v.chal)))
 		}
 	}
+	sgDump("verify", vl)
 	vo := c.Model(vl)
 	c.Program(len(vl))
 	for i, rf := range refs {
@@ -577,6 +580,15 @@ func (t *sgRun) settle() {
 		// nothing failed there, so the correspondence itself is what no longer holds
 		c.Unshown("correspondence:"+rf.v.kind, fmt.Sprintf("%s: %s: real verifier %s, model %s; predicate %s", rf.p.env.name, rf.v.kind, got, vo[i], rf.v.tree), t.replay(rf.p, rf.v))
 	}
+}
+
+// sgDump writes the model lines to $VERIF_DUMP_DIR (debugging aid, off by default).
+func sgDump(tag string, lines []string) {
+	dir := os.Getenv("VERIF_DUMP_DIR")
+	if dir == "" {
+		return
+	}
+	os.WriteFile(dir+"/c14-"+tag+".txt", []byte(strings.Join(lines, "\n")+"\n"), 0o644)
 }
 
 func hexDecode(s string) ([]byte, error) {
